@@ -864,6 +864,14 @@ func (s *sessStream) respSeq(kinds ...string) []string {
 			if want["clear"] {
 				out = append(out, fmt.Sprintf("clear:%d", x.ClearMsg))
 			}
+		case *signaling.SessionResponse_Opened:
+			if want["opened"] {
+				out = append(out, fmt.Sprintf("opened:%d", x.Opened))
+			}
+		case *signaling.SessionResponse_Closed:
+			if want["closed"] {
+				out = append(out, "closed")
+			}
 		}
 	}
 	return out
@@ -1369,6 +1377,87 @@ func (e *engine) scenario(kind string, n int) {
 			w.expectSeq(b2, "acknowledgements transmitted to the sender (call 2->1, new stream)", []string{fmt.Sprintf("ack:%d", b2.nextQ)}, "ack")
 			act("attach 1->2, 2->1; 2->1 stalls; send on 1->2 (B1 parks in Send); 2 re-attaches (new epoch); the new 2->1 becomes slow: send on 1->2 (B2 parks in Send); send on the new 2->1; 1 acknowledges (stored for B2); B1 ends late; B2 resumes")
 		}
+	case "stalled-reopen":
+		// C23/C22 sentinel (wave 6): the write loop of the RECEIVER B is parked inside a Send (slow
+		// downlink: of Closed / of Opened(e) / of a message / of an acknowledgement) while its partner's
+		// call ends and a new one attaches (the epoch of the pair changes) and the new call submits a
+		// message for the NEW epoch, which the relay accepts into B's slot - all before B's handler has
+		// announced that epoch. B resumes and nothing else happens: after Opened(new epoch) the handler
+		// must hand out the message that was queued before the announcement (no later wake-up exists).
+		parkIn := func(s *sessStream) {
+			select {
+			case <-s.inSend:
+			case <-time.After(2 * time.Second):
+			}
+		}
+		a := w.newSession(1, 2)
+		q()
+		b := w.newSession(2, 1)
+		q()
+		ep, _ := b.lastOpened()
+		var want []string
+		var how string
+		reopen := func() *sessStream {
+			a.kill()
+			q()
+			a = w.newSession(1, 2)
+			q()
+			ep += 2
+			return a
+		}
+		switch n % 4 {
+		case 0: // parked writing Closed
+			b.holdSends()
+			a.kill()
+			parkIn(b)
+			q()
+			a = w.newSession(1, 2)
+			q()
+			ep += 2
+			want = []string{fmt.Sprintf("opened:%d", ep-2), "closed", fmt.Sprintf("opened:%d", ep), "recv:1"}
+			how = "Closed"
+		case 1: // parked writing Opened(e); the pair goes through another re-open
+			a.kill()
+			q()
+			b.holdSends()
+			a = w.newSession(1, 2)
+			parkIn(b)
+			q()
+			ep += 2
+			reopen()
+			want = []string{fmt.Sprintf("opened:%d", ep-4), "closed", fmt.Sprintf("opened:%d", ep-2), fmt.Sprintf("opened:%d", ep), "recv:1"}
+			how = "Opened"
+		case 2: // parked writing a message of the old epoch
+			b.holdSends()
+			w.submit(a, "send")
+			parkIn(b)
+			q()
+			reopen()
+			want = []string{fmt.Sprintf("opened:%d", ep-2), "recv:1", fmt.Sprintf("opened:%d", ep), "recv:1"}
+			how = "a message"
+		default: // parked writing an acknowledgement of the old epoch
+			w.submit(b, "send")
+			q()
+			b.holdSends()
+			w.submit(a, fmt.Sprintf("ack=%d", b.nextQ))
+			parkIn(b)
+			q()
+			reopen()
+			want = []string{fmt.Sprintf("opened:%d", ep-2), fmt.Sprintf("ack:%d", b.nextQ), fmt.Sprintf("opened:%d", ep), "recv:1"}
+			how = "an acknowledgement"
+		}
+		w.submit(a, "send") // stamped with the epoch the new call was told: stored for B
+		q()
+		b.release()
+		q()
+		w.expects = append(w.expects, func() (string, string) {
+			got := b.respSeq("opened", "closed", "recv", "ack")
+			if strings.Join(got, " ") != strings.Join(want, " ") {
+				return "sigsrv.stalled-reopen:", fmt.Sprintf("responses transmitted to the receiver (call 2->1) whose handler was parked writing %s across a re-open of the pair: the relay sent [%s], the schedule requires [%s] (a message accepted for the current epoch before the handler announced that epoch must be handed out after the announcement; nothing else will wake the handler)", how, strings.Join(got, " "), strings.Join(want, " "))
+			}
+			return "", ""
+		})
+		act("attach 1->2, 2->1; 2->1 becomes a slow client: its handler parks writing " + how + "; call 1->2 ends and a new call 1->2 attaches (new epoch); send on the new 1->2 (accepted for the new epoch, stored for 2); 2->1 resumes")
 	case "send-error-exit":
 		// C24/C25 sentinel: the handler's write fails (strm.Send returns an error): the call must end,
 		// and its cleanup must leave the relay as if the call had been cancelled (partner told Closed,
@@ -2258,6 +2347,17 @@ func (e *engine) run() {
 	e.rep.Require("trace.superseded-late-exit.quiescent")
 	for i := 0; i < 3; i++ {
 		e.scenario("superseded-late-exit", i)
+	}
+	// wave 6: the receiver's handler parked in a Send across a re-open, a message accepted for the
+	// new epoch before it resumes (own random stream: the other schedules of a seed stay what they were)
+	e.rep.Require("trace.stalled-reopen.quiescent")
+	{
+		saved := e.rng
+		e.rng = lib.NewRng(e.a.Seed ^ 0x7374616c)
+		for i := 0; i < 4; i++ {
+			e.scenario("stalled-reopen", i)
+		}
+		e.rng = saved
 	}
 	e.scenario("late-attach", 1)
 	e.scenario("listen-reopen", 2)
